@@ -16,6 +16,7 @@ builtin_pref builtin_wellformed builtin_deterministic bare_tag_not_an_item value
 balanced_spec ops_denote ops_denote_rel ops_denote_counterexample ops_denote_wf ops_denote_single ops_value
 ops_shortest ops_preferred ops_reference ops_complete ops_complete_preferred ops_append ops_unique""".split()]
 PACKAGES = ["hcore"]
+DEBUG_TWINS = True
 RULE = ("enc <method> <arg>: every Encoder method; all u8/i8/u16/i16 values and all 256 simple values exhaustively, "
         "boundary-dense (2^k±3, width edges) and seeded random 32/64-bit arguments, strings around the length-width edges; "
         "each op is executed twice by the implementation (determinism). A case is non-trivial if the implementation produced bytes; "
